@@ -111,6 +111,16 @@ def key (s : StrIt) : StrIt × ConvRes (List Char) :=
         if s.text.length ≤ r then ({ s with restore := none, patched := false }, .ok ((txt.drop k).take n))
         else ({ s with restore := some r, patched := true }, .ok ((txt.drop k).take n))
 
+/-- `parseConvertElement(conv, 's', dest)`: the remaining text behind its white space (`none` = a NULL string
+    for an empty rest); the element keeps no end mark -/
+def rest (s : StrIt) : StrIt × ConvRes (Option (List Char)) :=
+  match s.pos with
+  | none => (s, .err .MissingData)
+  | some p =>
+    let txt := s.text.drop p
+    if txt.isEmpty then ({ s with restore := none, patched := false }, .ok none)
+    else ({ s with restore := none, patched := false }, .ok (some (dropSpace txt)))
+
 /-- conversion to `double` -/
 def conv (s : StrIt) : StrIt × ConvRes Rat := convWith cdouble s
 
@@ -129,8 +139,11 @@ def advance (s : StrIt) : StrIt × AdvRes :=
 def reset (s : StrIt) : StrIt × Int :=
   ({ s with pos := some 0, endNull := false, restore := none, patched := false }, 1)
 
-/-- `parseClone`: a copy of the whole text with the same position and element mark -/
-def clone (s : StrIt) : StrIt := s
+/-- `parseClone`: a new iterator over a copy of the whole text (with the separators), then position, end
+    mark and element mark (the stored NUL included) are transferred -/
+def clone (s : StrIt) : StrIt :=
+  let c := create (some s.text) (some s.sep)
+  { c with pos := s.pos, endNull := s.endNull, restore := s.restore, patched := s.patched }
 
 end StrIt
 end Mpt.Iter
